@@ -18,6 +18,71 @@ func (f *Func) Callee(call *ast.CallExpr) *types.Func {
 	if fn, ok := fn.(*types.Func); ok {
 		return fn.Origin()
 	}
+	// a call through a local function variable that is defined exactly once, by a method value or a
+	// function name (e.g. a callback parameter of an expanded helper bound to `s.contractor.Credit…`)
+	if id, ok := ast.Unparen(call.Fun).(*ast.Ident); ok {
+		if v, ok := f.Info().Uses[id].(*types.Var); ok && !v.IsField() {
+			if fn := f.funcValueOf(v); fn != nil {
+				return fn
+			}
+		}
+	}
+	return nil
+}
+
+// funcValueOf: the function or method that local variable v always holds.
+func (f *Func) funcValueOf(v *types.Var) *types.Func {
+	info := f.Info()
+	var out *types.Func
+	n := 0
+	note := func(lhs, rhs ast.Expr) {
+		id, ok := ast.Unparen(lhs).(*ast.Ident)
+		if !ok || (info.Defs[id] != v && info.Uses[id] != v) {
+			return
+		}
+		n++
+		if rhs == nil {
+			return
+		}
+		switch t := ast.Unparen(rhs).(type) {
+		case *ast.Ident:
+			if fn, ok := info.Uses[t].(*types.Func); ok {
+				out = fn.Origin()
+			}
+		case *ast.SelectorExpr:
+			if fn, ok := info.Uses[t.Sel].(*types.Func); ok {
+				out = fn.Origin()
+			}
+		}
+	}
+	ast.Inspect(f.Top().Body, func(x ast.Node) bool {
+		switch t := x.(type) {
+		case *ast.AssignStmt:
+			for i, l := range t.Lhs {
+				var r ast.Expr
+				if len(t.Rhs) == len(t.Lhs) {
+					r = t.Rhs[i]
+				}
+				note(l, r)
+			}
+		case *ast.ValueSpec:
+			for i, nm := range t.Names {
+				var r ast.Expr
+				if len(t.Values) == len(t.Names) {
+					r = t.Values[i]
+				}
+				note(nm, r)
+			}
+		case *ast.UnaryExpr:
+			if t.Op == token.AND {
+				note(t.X, nil)
+			}
+		}
+		return true
+	})
+	if n == 1 {
+		return out
+	}
 	return nil
 }
 
